@@ -78,6 +78,9 @@ func oracleC02(d *PDrv) (string, string) {
 func oracleC03(d *PDrv) (string, string) {
 	recs := d.recordings('m')
 	motion := d.motionOf()
+	if sig, msg := motionTruth(d, motion); sig != "" {
+		return "C03:" + sig, msg
+	}
 	minF, maxF := d.cfg.MinF(), d.cfg.MaxF()
 	for ri, r := range recs {
 		p, q := 0, 0
@@ -123,8 +126,32 @@ func oracleC03(d *PDrv) (string, string) {
 
 // oracleC04: a recording starts iff no recording is active, the frame completes a run
 // of >= trigger-frames motion frames, the window is open, disk check ok, file creatable.
+// motionTruth ties the processor's MotionDetected reports (which the oracles below use as "motion was
+// detected on this frame") to the frames the harness generated: the beacon pixel toggles on every '1' frame
+// and on no other, the detector compares with the previous accepted frame (gap 1, one diff, count 1), and the
+// first frame since start-up or a camera reset has nothing to be compared with.
+func motionTruth(d *PDrv, motion []bool) (string, string) {
+	have := false
+	for ev, k := range d.evKind {
+		switch k {
+		case 'R':
+			have = false
+		case '1', '0':
+			if want := k == '1' && have; motion[ev] != want {
+				return "motion-report-differs-from-frame-content", fmt.Sprintf("event %d (frame %d): the processor reported motion=%v, but the frame %s", ev+1, d.evID[ev], motion[ev],
+					map[bool]string{true: "differs from the previous accepted frame in the beacon pixel", false: "is identical to the previous accepted frame (or is the first since start-up / reset)"}[want])
+			}
+			have = true
+		}
+	}
+	return "", ""
+}
+
 func oracleC04(d *PDrv) (string, string) {
 	motion := d.motionOf()
+	if sig, msg := motionTruth(d, motion); sig != "" {
+		return "C04:" + sig, msg
+	}
 	// per event: did a StartRecording succeed, was it attempted
 	startOK := make([]bool, len(d.evKind))
 	startTried := make([]bool, len(d.evKind))
